@@ -6,6 +6,7 @@ import Driver.Codec
 import Driver.Conv
 import Driver.Ser
 import Driver.Builder
+import Driver.Syntax
 import RevalModel.Impl.RuleSet
 import RevalModel.Spec.OperatorTable
 
@@ -43,6 +44,10 @@ def handle (line : String) : String :=
   | ["ser", arg] => handleSer arg
   | ["evalser", rules, input, env, oracle] => handleEvalSer rules input env oracle
   | ["builder", ops, xid] => handleBuilder ops xid
+  | ["lex", t] => handleLex t
+  | ["parse", t, o] => handleParse t o
+  | ["parserule", t, o] => handleParseRule t o
+  | ["display", e, o] => handleDisplay e o
   | ["ping"] => "pong"
   | _ => "bad-request"
 
